@@ -10,7 +10,7 @@ func init() {
 	register(&propDef{
 		id: "C20", title: "Event stream subscribers get every event once, in publish order",
 		technique: "lockset on the stream's topic/subscriber maps, snapshot-then-signal rule over the CFG, atomic discipline on the lock-free queue, node-lifetime rule (a node that left the list is neither relinked nor recycled)",
-		explanation: "Decides: (1) the stream's topic map and subscriber map and each subscriber's topic set are accessed only under their mutexes; (2) publishToTopic copies the topic's subscribers into a fresh snapshot under the read lock, releases the lock, and then signals every snapshot element exactly once, only if it is active; signal re-tests the active flag before enqueuing; Unsubscribe removes the subscriber from the topic map under the write lock; (3) every field of the lock-free queue and its nodes that is accessed with sync/atomic anywhere is accessed that way everywhere — in particular no plain store to a node's next pointer; (4) node lifetime: no function hands a queue node to a pool for reuse, and a node's next pointer changes exactly once, nil→successor, by the linking CAS of Enqueue — never stored, swapped or cleared afterwards (the tail may lag behind the head and a stalled Enqueue may still hold a dequeued node as its tail: resetting or recycling it detaches every later element); (5) a subscriber's queue is enqueued only by signal and dequeued only by Iterator. Linearizability of the queue is not decided.",
+		explanation: "Decides: (1) the stream's topic map and subscriber map and each subscriber's topic set are accessed only under their mutexes; (2) publishToTopic copies the topic's subscribers into a fresh snapshot under the read lock, releases the lock, and then signals every snapshot element exactly once, only if it is active; signal re-tests the active flag before enqueuing; Unsubscribe removes the subscriber from the topic map under the write lock; (3) every field of the lock-free queue and its nodes that is accessed with sync/atomic anywhere is accessed that way everywhere — in particular no plain store to a node's next pointer; (4) node lifetime: no function hands a queue node to a pool for reuse, and a node's next pointer changes exactly once, nil→successor, by the linking CAS of Enqueue — never stored, swapped or cleared afterwards (the tail may lag behind the head and a stalled Enqueue may still hold a dequeued node as its tail: resetting or recycling it detaches every later element); (5) a subscriber's queue is enqueued only by signal and dequeued only by Iterator. Linearizability of the queue is not decided. Added after the probe round (Michael–Scott skeleton): head and tail are moved only by compare-and-swap; Enqueue returns only over its linking CAS's success edge; Dequeue returns a value only over its head CAS's success edge, reads the successor's value before any payload is dropped, and drops the payload of the old head only.",
 		assumptions: []string{"linearizability / FIFO of the Michael–Scott queue under interleavings", "Iterator is used by one consumer at a time"},
 		minObl:     30,
 		run:        runC20,
@@ -183,6 +183,70 @@ func runC20(c *Ctx) {
 			}
 		}
 		c.Ok("next-never-reset", "no plain store to a node's next pointer exists", c.P.Pos(pk.Syntax[0].Pos()))
+	})
+
+	c.Rule("ms-queue", func() {
+		// Michael–Scott skeleton of the subscriber queue: (a) head and tail are moved only by compare-and-swap;
+		// (b) Enqueue returns only after its linking CAS (tail.next: nil → node) succeeded; (c) Dequeue returns a value
+		// only after its head CAS succeeded, the value is read from the successor node, and the node whose payload is
+		// dropped is the OLD head (never the node whose value is being returned).
+		headF := c.Field("internal/queue", "Queue", "head")
+		tailF := c.Field("internal/queue", "Queue", "tail")
+		nextF := c.Field("internal/queue", "item", "next")
+		valF := c.Field("internal/queue", "item", "v")
+		for _, u := range append(c.UsesOf(headF), c.UsesOf(tailF)...) {
+			if u.Sel == nil || !u.IsAddr {
+				continue
+			}
+			for i := len(u.Path) - 1; i >= 0 && i >= len(u.Path)-4; i-- {
+				if call, ok := u.Path[i].(*ast.CallExpr); ok {
+					if fv, op, _ := atomicOp(u.Pkg.TypesInfo, call); fv != nil {
+						okOp := op == "Load" || op == "CompareAndSwap"
+						c.Check(okOp, "moves-by-cas@"+u.EnclName()+"/"+fv.Name()+"/"+op, "the queue's head and tail are read and compare-and-swapped, never stored or exchanged unconditionally", u.Where(c.P), op+" on Queue."+fv.Name())
+					}
+					break
+				}
+			}
+		}
+		enq := c.Func("internal/queue", "Queue.Enqueue")
+		ef := c.NewFlow(enq)
+		link := func(n ast.Node) bool { _, k := atomicOnIn(ef.Info, n, nextF); return k == "CompareAndSwapPointer" }
+		linked := ef.CondEdges(exprMatch(link), true)
+		w := ef.search(searchSpec{avoidEdges: linked, exits: true})
+		c.Check(w == nil && len(linked) > 0, "enqueue/returns-only-linked", "Enqueue returns only over the edge on which its linking CAS succeeded (the value is in the list)", c.P.Pos(enq.Decl.Pos()), ef.describe(w))
+		deq := c.Func("internal/queue", "Queue.Dequeue")
+		df := c.NewFlow(deq)
+		dinfo := df.Info
+		adv := func(n ast.Node) bool { _, k := atomicOnIn(dinfo, n, headF); return k == "CompareAndSwapPointer" }
+		won := df.CondEdges(exprMatch(adv), true)
+		retVal := func(n ast.Node) bool {
+			r, ok := n.(*ast.ReturnStmt)
+			return ok && len(r.Results) == 1 && !isNilIdent(dinfo, r.Results[0])
+		}
+		c.guardedBy(df, won, retVal, "dequeue/value-only-after-cas", "Dequeue returns a value only over the edge on which its head CAS succeeded", c.P.Pos(deq.Decl.Pos()))
+		// old head = the local loaded from q.head; the payload read is from another node, and the read precedes the release
+		oldHead := localsDefinedBy(dinfo, deq.Decl.Body, func(def ast.Expr) bool {
+			return containsNode(def, func(n ast.Node) bool { _, k := atomicOnIn(dinfo, n, headF); return k == "LoadPointer" })
+		})
+		release := c.FuncObj("internal/queue", "Queue.releaseItem")
+		okRel, nRel := true, 0
+		for _, a := range df.Find(df.CallTo(release)) {
+			nRel++
+			call := a.N.(*ast.CallExpr)
+			if len(oldHead) != 1 || objOf(dinfo, call.Args[0]) != oldHead[0] {
+				okRel = false
+			}
+		}
+		c.Check(okRel && nRel == 1, "dequeue/releases-old-head", "the node whose payload Dequeue drops is the old head (the dummy), never the node whose value it returns", c.P.Pos(deq.Decl.Pos()), "releaseItem is applied to something other than the node loaded from q.head")
+		readV := func(n ast.Node) bool {
+			sel, ok := n.(*ast.SelectorExpr)
+			if !ok || selField(dinfo, sel) != valF {
+				return false
+			}
+			return len(oldHead) == 1 && objOf(dinfo, sel.X) != oldHead[0]
+		}
+		w = df.MustPrecede(readV, nil, df.CallTo(release))
+		c.Check(w == nil && len(df.Find(readV)) > 0, "dequeue/read≺release", "the successor's value is read before any payload is dropped", c.P.Pos(deq.Decl.Pos()), df.describe(w))
 	})
 
 	c.Rule("queue-users", func() {
